@@ -343,6 +343,57 @@ def _aligned(term: Any, a: int) -> Optional[bool]:
     return None
 
 
+_CONCRETE_CAP = 20000
+_concrete_memo: Dict[Any, Any] = {}
+
+
+def _concrete(t: Any) -> Optional[frozenset]:
+    """the set a closed term denotes, or None (an unknown operand, or more than a few thousand elements)"""
+    if t in _concrete_memo:
+        return _concrete_memo[t]
+
+    def sums(a: frozenset, b: frozenset) -> Optional[frozenset]:
+        if len(a) * len(b) > 4 * _CONCRETE_CAP:
+            return None
+        r = frozenset(x + y for x in a for y in b)
+        return r if len(r) <= _CONCRETE_CAP else None
+
+    out: Optional[frozenset] = None
+    k = t[0]
+    if k == "leaf":
+        out = t[1] if len(t[1]) <= _CONCRETE_CAP else None
+    elif k == "pad":
+        c = _concrete(t[1])
+        out = frozenset(-(-v // t[2]) * t[2] for v in c) if c is not None else None
+    elif k in ("rep", "rng"):
+        c = _concrete(t[1])
+        n = t[2]
+        if c is not None and isinstance(n, int) and 0 <= n <= 4096:
+            acc: Optional[frozenset] = frozenset([0])
+            union = set([0])
+            for _ in range(n):
+                acc = sums(acc, c) if acc is not None else None
+                if acc is None:
+                    break
+                union |= acc
+                if len(union) > _CONCRETE_CAP:
+                    acc = None
+                    break
+            if acc is not None:
+                out = acc if k == "rep" else frozenset(union)
+    elif k == "cat":
+        acc2: Optional[frozenset] = frozenset([0])
+        for p in t[1:]:
+            c = _concrete(p)
+            acc2 = sums(acc2, c) if (acc2 is not None and c is not None) else None
+        out = acc2
+    elif k == "uni":
+        parts = [_concrete(p) for p in t[1]]
+        out = frozenset().union(*parts) if all(p is not None for p in parts) and sum(len(p) for p in parts) <= _CONCRETE_CAP else None  # type: ignore
+    _concrete_memo[t] = out
+    return out
+
+
 class TBls(_Abstract):
     """
     term := ('var', name) | ('leaf', frozenset of ints) | ('pad', T, a) | ('rep', T, k) | ('rng', T, k)
@@ -448,10 +499,18 @@ class TBls(_Abstract):
         return TBls.unite([o, self])
 
     def __eq__(self, o: Any) -> bool:
-        return isinstance(o, TBls) and self.term == o.term
+        if not isinstance(o, TBls):
+            return False
+        if self.term == o.term:
+            return True
+        # two closed terms (no unknown operand) denote sets that can simply be written out: {0, 8, ..., 64} is the same set
+        # whether it was built as a literal, a range or a bounded repetition
+        a, b = _concrete(self.term), _concrete(o.term)
+        return a is not None and b is not None and a == b
 
     def __hash__(self) -> int:
-        return hash(self.term)
+        c = _concrete(self.term)
+        return hash(c) if c is not None else hash(self.term)
 
     def is_aligned_at(self, a: Any) -> Any:
         r = _aligned(self.term, int(a))
